@@ -15,7 +15,7 @@ PROP = dict(
          "(collector increment = model gcStep; VM step inside the mutator contract), and on every completed cycle the "
          "executable form of C07_cycle_complete is checked (heap at cycle end within reachable-at-start plus allocated-since); "
          "(B) eight loop programs with bounded live data run under the real pacing for N and 10N iterations with the peak heap "
-         "read after every step: the peak must not grow with N; (D) the pacing model M5p against the REAL pacing: the eight loop "
+         "read after every step: the peak must not grow with N; plus three task programs (many short-lived tasks created one after the other: finishing normally, in pairs sending struct messages, ending with a runtime error) whose whole-process live bytes (counting allocator) must not grow with the number of tasks that have ended; (D) the pacing model M5p against the REAL pacing: the eight loop "
          "programs, nested-pop programs (cycles of 5 and 6 calls), a static-string store program, a consumer thread that keeps "
          "receiving messages of many small objects (one ChannelRead allocates a whole message: 40 tuples with every step "
          "validated, 4000 tuples = 256 KB per instruction with the oracles only), generated and mover programs "
